@@ -39,6 +39,9 @@ def bad_bodies(enc):
         'length-past-end': e('1240') + bm([2]) + e('0912345'),
         'fixed-field-short': e('1240') + bm([3]) + e('00000'),
         'bad-date': e('1240') + bm([12]) + e('991332256199'),
+        'unknown-bit-primary-bitmap-only': e('1240') + bm([7], False) + e('0512345'),
+        'bad-value-primary-bitmap-only': e('1240') + bm([4], False) + e('00000000ABCD'),
+        'unknown-bit-no-low-elements': e('1240') + bm([9 + 2], False) + e('12345678'),
     }
 
 
@@ -248,6 +251,66 @@ def two_faults(enc, blocked):
     return h
 
 
+BIG = {'MTI': '1240', 'DE54': 'A' * 999, 'DE63': 'B' * 999, 'DE72': 'C' * 999, 'DE111': 'D' * 999, 'DE127': 'E' * 999,
+       'DE123': '0001992' + 'F' * 992, 'DE124': '0002992' + 'G' * 992}
+
+
+def configured_max(blocked):
+    """the maximum record length is a run-time setting: after it is changed, "oversize" means "longer than the new value" - an error for the
+    right record when it was lowered, no error for a record that fits when it was raised"""
+    def h():
+        core.FUEL.set(60)
+        m = M().mciipm
+        iso = M().iso8583
+        cfg = M().config.config
+        case = choose('case', ['lowered-to-300', 'raised-to-10000'])
+        f = RopeFile()
+        w = m.IpmWriter(f, blocked=blocked)
+        w.write({'MTI': '1240', 'DE2': '4444555566667777'})
+        if case == 'lowered-to-300':
+            n = sym_int('de63_len', 200, 900)
+            v = Source('de63', 't', n).rope()
+            w.write({'MTI': '1240', 'DE63': v})
+            w.write({'MTI': '1240', 'DE3': '000000'})
+            reclen = 4 + 16 + 3 + n
+            rp = (lambda: {'kind': 'configured_max', 'args': {'case': case, 'blocked': blocked, 'n': ev(n)}})
+            newmax = 300
+        else:
+            w.write(dict(BIG))
+            m.VbsWriter.write(w, bad_bodies('latin_1')['bad-mti'])
+            rp = (lambda: {'kind': 'configured_max', 'args': {'case': case, 'blocked': blocked, 'n': 0}})
+            newmax = 10000
+        w.close()
+        core.set_fallback(rp, 'C10/concretised')
+        old = cfg.get('MAX_VBS_RECORD_LENGTH', 6000)
+        cfg['MAX_VBS_RECORD_LENGTH'] = newmax
+        got, err = [], None
+        try:
+            with guard('IpmReader', 'C10/exception', rp, allow=(m.MciIpmDataError,)):
+                try:
+                    for d in m.IpmReader(RopeFile(f.getvalue()), blocked=blocked):
+                        core.FUEL.set(60)
+                        got.append(d)
+                except m.MciIpmDataError as e:
+                    err = e
+        finally:
+            cfg['MAX_VBS_RECORD_LENGTH'] = old
+        if case == 'lowered-to-300':
+            if reclen > 300:
+                require(err is not None and len(got) == 1, 'record 2 is longer than the configured maximum (300): %d records delivered, error %s' % (len(got), err is not None),
+                        key='C10/configured-max', replay=rp)
+                require(err.record_number == 2, 'oversize record 2 reported as record %s' % (err.record_number,), key='C10/record-number', replay=rp)
+            else:
+                require(err is None and len(got) == 3, 'all three records fit the configured maximum', key='C10/configured-max', replay=rp)
+        else:
+            require(len(got) == 2, 'record 2 (%d bytes) fits the configured maximum of 10000 and has to be delivered: %d delivered' % (7034, len(got)),
+                    key='C10/configured-max', replay=rp)
+            require(err is not None and err.record_number == 3, 'the bad record 3 is reported as record %s' % (getattr(err, 'record_number', None),),
+                    key='C10/record-number', replay=rp)
+        return {'sample': {'case': case, 'delivered': len(got), 'error_at': getattr(err, 'record_number', None)}, 'replay': rp()}
+    return h
+
+
 def obligations(tier):
     q = tier == 'quick'
     nmax = 3 if q else 4
@@ -260,6 +323,10 @@ def obligations(tier):
                           'n in 1..%d records, every k, truncated record (every cut offset inside the body) and oversize length (6001..2^32-1)' % nmax, _funcs))
             obs.append(Ob('message/' + tag, fault(nmax, msgkinds, enc, blocked), 600,
                           'n in 1..%d records, every k, message-level faults %s' % (nmax, msgkinds), _funcs))
+    for blocked in (False, True):
+        obs.append(Ob('configured-max/%s' % ('1014' if blocked else 'vbs'), configured_max(blocked), 300,
+                      'MAX_VBS_RECORD_LENGTH changed at run time: lowered to 300 with a second record of 223..923 bytes; raised to 10000 with a second record '
+                      'of 7034 bytes followed by a bad record', _funcs))
     for blocked in (False, True):
         obs.append(Ob('two-step/latin_1/%s' % ('1014' if blocked else 'vbs'), two_step('latin_1', blocked), 300,
                       'one or two records taken with next(), the rest with a for loop; fault kinds bad MTI / bad value / oversize / truncated', _funcs))
